@@ -8,7 +8,10 @@ Sub-checks
           label columns for absent labels are switched off on both sides); CSV files are also overwritten 1-3 times.
   vcf     VCF text generated from a grammar (phased diploid GT) -> from_vcf of both genotype classes.
   copy    copy.copy / copy.deepcopy / .copy() / .deepcopy(): equal to the source; deep copies share no memory with it and
-          mutating every mutable field of the deep copy leaves the source unchanged.
+          mutating every mutable field of the deep copy leaves the source unchanged.  Then a generated history on the SAME
+          source: further copies through any entry point (method forms with the default / None / a fresh memo), earlier
+          deep copies edited in place in between, the source edited (in place or through its setter) in between; every
+          copy must equal the source as it is at the moment of the copy.
 
 Oracle: ``observably_equal(a, b)`` = diff of two *snapshots*; a snapshot walks every public property / public instance
 attribute of the object (recursively into dicts, interpolation splines and nested pybrops objects) and copies the
@@ -519,9 +522,17 @@ def frames_case(draw):
             "fname": draw(_FNAME)}
 
 
+_COPY_OPS = ["copy.copy", "copy.deepcopy", "method.copy", "method.deepcopy", "method.deepcopy", "method.deepcopy(None)",
+             "method.deepcopy({})", "edit_source:inplace", "edit_source:setter"]
+
+
 @st.composite
 def copy_case(draw):
-    return {"cls": _pick_class(draw, COPY_CLASSES), "content": draw(content_strategy())}
+    """content + a history of further copy operations on the same source object: [op, edit the copy afterwards?, raw index]"""
+    nops = draw(st.integers(1, 5))
+    hist = [[draw(st.sampled_from(_COPY_OPS)), draw(st.sampled_from([True, True, False])), draw(st.integers(0, 10 ** 6))]
+            for _ in range(nops)]
+    return {"cls": _pick_class(draw, COPY_CLASSES), "content": draw(content_strategy()), "history": hist}
 
 
 _VCF_TOKEN = st.text(st.characters(blacklist_categories=("Cs", "Cc", "Zs", "Zl", "Zp"), blacklist_characters=";,=\x7f"),
@@ -1296,6 +1307,67 @@ def _mutate(x, depth=0):
     return k
 
 
+_MAIN_DATA = ("mat", "beta", "u_a", "u_d", "u_misc")
+
+
+def _edit_source(obj, how, raw):
+    """one legal element-wise change of a main data array of the SOURCE, in place or through the public setter.
+    Values stay inside the class's domain (0 <-> 1 for allele counts, x + 1 for floats).  Returns the field or None."""
+    names = []
+    for name in _MAIN_DATA:
+        v = getattr(obj, name, None)
+        if isinstance(v, numpy.ndarray) and v.size and v.dtype.kind in "if":
+            names.append(name)
+    if not names:
+        return None
+    name = names[raw % len(names)]
+    arr = getattr(obj, name)
+    if how == "setter":
+        prop = inspect.getattr_static(type(obj), name, None)
+        if not isinstance(prop, property) or prop.fset is None:
+            return None
+        arr = arr.copy()
+    elif not arr.flags.writeable:
+        return None
+    k = (raw // 7) % arr.size
+    ix = numpy.unravel_index(k, arr.shape)
+    v = arr[ix]
+    if arr.dtype.kind == "i":
+        arr[ix] = 1 - int(v) if int(v) in (0, 1) else 0
+    else:
+        arr[ix] = float(v) + 1.0 if numpy.isfinite(v) else 0.5
+    if how == "setter":
+        setattr(obj, name, arr)
+    return name
+
+
+def _one_copy(ctx, obj, snap, name, dup, clsname, prefix, edit):
+    """clauses for ONE copy ``dup`` of ``obj`` (whose state at the moment of the copy is ``snap``)"""
+    deep = "deepcopy" in name
+    ctx.check(dup is not obj, prefix + ".same_object")
+    ctx.check(type(dup) is type(obj), prefix + ".class", "%s vs %s" % (type(dup).__name__, type(obj).__name__))
+    report(ctx, prefix + ".equal", mismatches(snap, dup), "(%s of %s)" % (name, clsname))
+    report(ctx, prefix + ".source_changed", diff(snap, snapshot(obj)), "(%s of %s)" % (name, clsname))
+    # whether a copy shares the protocol's random generator is not asserted here (C08 decides what re-seeding requires)
+    if not deep:
+        return 0
+    src = _arrays(obj)
+    for pth, arr in _arrays(dup):
+        for spth, sarr in src:
+            if arr.size and sarr.size and numpy.shares_memory(arr, sarr):
+                ctx.fail(prefix + ".shares_memory", "%s of the deep copy shares memory with %s of the source (%s)" % (pth, spth, clsname))
+    if not edit:
+        return 0
+    nmut = _mutate(dup)
+    mm = diff(snap, snapshot(obj))
+    if mm:
+        ctx.fail(prefix + ".mutation_leaks_into_source", "; ".join("%s: %s" % (m[0], m[2]) for m in mm[:4]) + " (%s)" % clsname)
+    after = snapshot(dup)
+    ctx.check(bool(diff(snap, after)) or nmut == 0, "copy.deep.mutation_not_observable",
+              "harness: mutating the copy changed nothing observable")
+    return nmut
+
+
 def check_copy(case, ctx):
     clsname = case["cls"]
     c = case["content"]
@@ -1308,35 +1380,45 @@ def check_copy(case, ctx):
     snap = snapshot(obj)
     absent, present = optional_profile(snap)
     ctx.nontrivial(bool(absent & _OPTIONAL) and bool(present & _OPTIONAL) or fam in ("gmap", "gmod", "ge"))
-    makers = [("copy.copy", lambda: copy.copy(obj)), ("copy.deepcopy", lambda: copy.deepcopy(obj))]
+    makers = {"copy.copy": lambda: copy.copy(obj), "copy.deepcopy": lambda: copy.deepcopy(obj)}
     if hasattr(obj, "copy"):
-        makers.append(("method.copy", lambda: obj.copy()))
+        makers["method.copy"] = lambda: obj.copy()
     if hasattr(obj, "deepcopy"):
-        makers.append(("method.deepcopy", lambda: obj.deepcopy()))
-    for name, mk in makers:
-        dup = mk()
-        deep = name.endswith("deepcopy")
-        prefix = "copy.deep" if deep else "copy.shallow"
-        ctx.check(dup is not obj, prefix + ".same_object")
-        ctx.check(type(dup) is type(obj), prefix + ".class", "%s vs %s" % (type(dup).__name__, type(obj).__name__))
-        report(ctx, prefix + ".equal", mismatches(snap, dup), "(%s of %s)" % (name, clsname))
-        report(ctx, prefix + ".source_changed", diff(snap, snapshot(obj)), "(%s of %s)" % (name, clsname))
-        # whether a copy shares the protocol's random generator is not asserted here (C08 decides what re-seeding requires)
-        if not deep:
+        makers["method.deepcopy"] = lambda: obj.deepcopy()
+        if "memo" in inspect.signature(obj.deepcopy).parameters:
+            makers["method.deepcopy(None)"] = lambda: obj.deepcopy(None)
+            makers["method.deepcopy({})"] = lambda: obj.deepcopy(memo={})
+    # ---- every entry point once on the fresh object; each deep copy is edited in place afterwards
+    edited = set()          # entry points one of whose earlier deep copies was edited in place
+    for name in ("copy.copy", "copy.deepcopy", "method.copy", "method.deepcopy"):
+        if name not in makers:
             continue
-        src = _arrays(obj)
-        for pth, arr in _arrays(dup):
-            for spth, sarr in src:
-                if arr.size and sarr.size and numpy.shares_memory(arr, sarr):
-                    ctx.fail("copy.deep.shares_memory", "%s of the deep copy shares memory with %s of the source (%s)" % (pth, spth, clsname))
-        nmut = _mutate(dup)
-        ctx.label("mutations>=3", nmut >= 3)
-        mm = diff(snap, snapshot(obj))
-        if mm:
-            ctx.fail("copy.deep.mutation_leaks_into_source", "; ".join("%s: %s" % (m[0], m[2]) for m in mm[:4]) + " (%s)" % clsname)
-        after = snapshot(dup)
-        ctx.check(bool(diff(snap, after)) or nmut == 0, "copy.deep.mutation_not_observable",
-                  "harness: mutating the copy changed nothing observable")
+        deep = name.endswith("deepcopy")
+        nmut = _one_copy(ctx, obj, snap, name, makers[name](), clsname, "copy.deep" if deep else "copy.shallow", True)
+        if deep:
+            ctx.label("mutations>=3", nmut >= 3)
+            edited.add(name)
+    # ---- history on the SAME source: more copies (any entry point, in any order), earlier deep copies edited in place
+    # in between, the source itself edited in between.  A copy must equal the source as it is when the copy is made,
+    # whatever was copied from it, and done to those copies, before.
+    for op, edit, raw in case.get("history", []):
+        if op.startswith("edit_source"):
+            field = _edit_source(obj, op.split(":")[1], raw)
+            if field is not None:
+                ctx.label("history:source_edited_between_copies")
+                now = snapshot(obj)
+                ctx.check(bool(diff(snap, now)), "copy.harness.source_edit_not_observable", "harness: editing %s changed nothing" % field)
+                snap = now
+            continue
+        if op not in makers:
+            continue
+        deep = "deepcopy" in op
+        base = op.split("(")[0]
+        ctx.label("history:repeat_" + op)
+        ctx.label("history:deep_copy_again_after_editing_earlier_copy", deep and base in edited)
+        _one_copy(ctx, obj, snap, op, makers[op](), clsname, "copy.deep.again" if deep else "copy.shallow.again", edit)
+        if deep and edit:
+            edited.add(base)
 
 
 # ======================================================================================================
@@ -1364,7 +1446,12 @@ SUBCHECKS = [
              required_labels=("multiallelic", "missing_id", "unsorted_records", "non_ascii_sample")),
     SubCheck("copy", check_copy, copy_case(), quick=260, thorough=1500, shards_quick=3,
              rule="generated object of every persistable class; copy.copy, copy.deepcopy, .copy(), .deepcopy(); deep copy "
-                  "mutated in every array / dict; non-trivial = mixed optional presence (matrices) or map/model/protocol",
+                  "mutated in every array / dict; then a generated history of 1-5 further operations on the same source "
+                  "(copies through any entry point incl. deepcopy(None) / deepcopy(memo={}), each deep copy optionally "
+                  "edited in place, the source edited in place or through a setter); "
+                  "non-trivial = mixed optional presence (matrices) or map/model/protocol",
              required_labels=("family:geno", "family:bv", "family:cmat", "family:var", "family:gmap", "family:gmod",
-                              "family:ge", "grouped_taxa", "grouped_vrnt", "mutations>=3")),
+                              "family:ge", "grouped_taxa", "grouped_vrnt", "mutations>=3",
+                              "history:deep_copy_again_after_editing_earlier_copy", "history:repeat_method.deepcopy",
+                              "history:repeat_copy.deepcopy", "history:source_edited_between_copies")),
 ]
